@@ -5,10 +5,17 @@ package groth16
 
 //@ spec func wfVK(vk *VerifyingKey) bool = len(vk.G1.K) >= 1 + len(vk.PublicAndCommitmentCommitted) && (len(vk.CommitmentKeys) == 0 || len(vk.CommitmentKeys) == len(vk.PublicAndCommitmentCommitted)) && (forall i int, j int :: 0 <= i && i < len(vk.PublicAndCommitmentCommitted) && 0 <= j && j < len(vk.PublicAndCommitmentCommitted[i]) ==> 1 <= vk.PublicAndCommitmentCommitted[i][j] && vk.PublicAndCommitmentCommitted[i][j] <= len(vk.G1.K) - len(vk.PublicAndCommitmentCommitted) - 1 + i)
 
+// Verify: never panics (C08) and accepts only when every conjunct of the Groth16/BSB22 acceptance
+// predicate holds (C01). The conjuncts are written from the protocol definition, not from the code.
 //@ contract func Verify
-//@   props C08
+//@   props C01 C08
 //@   requires proof != nil && vk != nil && wfVK(vk)
-//@   nopanic
+//@   nopanic[C08]
+//@   ensures[C01] @witness-length result == nil ==> len(publicWitness) == len(vk.G1.K) - len(vk.PublicAndCommitmentCommitted) - 1
+//@   ensures[C01] @commitment-count result == nil ==> len(proof.Commitments) == len(vk.PublicAndCommitmentCommitted)
+//@   ensures[C01] @subgroup result == nil ==> inSubG1(proof.Ar) && inSubG1(proof.Krs) && inSubG2(proof.Bs)
+//@   ensures[C01] @pedersen result == nil && len(vk.CommitmentKeys) > 0 ==> exists c F :: pedersenBatchOK(vk.CommitmentKeys, proof.Commitments, proof.CommitmentPok, c)
+//@   ensures[C01] @pairing result == nil ==> exists kx Fp, ky Fp :: gtEq(vk.e, finalExp(ml1(kx, ky, vk.G2.gammaNeg), ml2(proof.Krs, proof.Ar, vk.G2.deltaNeg, proof.Bs)))
 //@   loop 1 invariant maxNbPublicCommitted >= 0 && (forall k int :: 0 <= k && k <= rangeindex ==> len(vk.PublicAndCommitmentCommitted[k]) <= maxNbPublicCommitted)
 //@   loop 2 invariant len(publicWitness) == len(vk.G1.K) - len(vk.PublicAndCommitmentCommitted) - 1 + i
 //@   loop 3 invariant offset == curve.SizeOfG1AffineUncompressed + fr.Bytes*j
